@@ -107,6 +107,7 @@ def run(repo, res):
 
     from .. import resolve_model as _M
     _M.check_dotted_imports(repo, res, 'C06-R3')
+    _M.check_from_import_precedence(repo, res, 'C06-R3')
     # ---- R3 dispatch chains -------------------------------------------------------------------------
     check_dispatch(repo, res, facts)
 
